@@ -311,6 +311,49 @@ def _observable(ctx, cfg):
     vc.explore(run_exc, "ObservableEvaluator/exception")
     vc.flush()
     ctx.holds("exploration/paths > 0", vc.paths > 0)
+    _observable_log(ctx, SB)
+
+
+def _observable_log(ctx, SB):
+    import csv
+    import io
+    from qucumber.observables import SigmaZ, SigmaX
+    files = _GhostFiles()
+    _with_globals(SB, open=files.open)
+    oz = SigmaZ()
+    oz.name = "sigma_z, per site"
+    ox = SigmaX()
+    ox.name = 'X "flip"'
+    names = [oz.name, ox.name, "SigmaZ"]
+    ev = SB(2, [oz, ox, SigmaZ()], verbose=False, log="LOG", num_samples=5)
+    now = [0]
+
+    class Sys:
+        observables = ev.system.observables
+
+        def statistics(self, state, **kw):
+            return {nm: {"mean": _Opaque("m%d@%d" % (i, now[0])), "variance": _Opaque("v%d@%d" % (i, now[0])), "std_error": _Opaque("s%d@%d" % (i, now[0])),
+                         "num_samples": 5} for i, nm in enumerate(names)}
+    ev.system = Sys()
+    st = State()
+    want = []
+    for epoch in range(1, 8):
+        now[0] = epoch
+        ev.on_epoch_end(st, epoch)
+        if epoch % 2 == 0:
+            row = {"epoch": str(epoch)}
+            for i, nm in enumerate(names):
+                row.update({nm + "_mean": "<m%d@%d>" % (i, epoch), nm + "_variance": "<v%d@%d>" % (i, epoch), nm + "_std_error": "<s%d@%d>" % (i, epoch)})
+            want.append(row)
+    rd = csv.DictReader(io.StringIO(files.text.get("LOG", ""), newline=""))
+    rows = list(rd)
+    cols = ["epoch"] + [nm + s_ for nm in names for s_ in ("_mean", "_variance", "_std_error")]
+    ctx.holds("ObservableEvaluator/log: read back as CSV the header is 'epoch' followed by <name>_mean, _variance, _std_error per observable in order (names with commas, quotes)",
+              rd.fieldnames == cols, repr(rd.fieldnames))
+    ctx.holds("ObservableEvaluator/log: read back as CSV there is one row per evaluated epoch, in order, and each column holds the text of the recorded statistic",
+              rows == want, repr(rows[:1]))
+    ctx.holds("ObservableEvaluator/log: the log file is only ever appended to", all(p == "LOG" and "a" in m for p, m in files.modes) and len(files.modes) == 4)
+    _with_globals(SB, open=open)
 
 
 def _saver(ctx, cfg):
